@@ -195,7 +195,7 @@ ALL_MODULES = [
 def shards(tier, seed):
     big = tier == "thorough"
     return [
-        (f"w_{fmt}", "shard_format", {"fmt": fmt, "max_examples": 400 if big else 100})
+        (f"w_{fmt}", "shard_format", {"fmt": fmt, "max_examples": 1500 if big else 100})
         for fmt in formats()
     ]
 
